@@ -30,7 +30,7 @@ RULE = ('expression correspondence: seeded random expressions (depth <= 5) over 
         '(function, target, arguments) triples with control flow and a non-zero result')
 EXPLANATION = ('PARTIAL. Statement level (added): c37_stmt_exact / c37_body_exact / c37_switch_dispatch prove, by rule induction '
                'over a relational big-step semantics (Spec/C3StmtSpec.v: assignment with implicit conversion, compound, if/else, '
-               'while, for, switch, return), that the code gen_stmt is modelled to emit (Model/C3Stmt.v) returns the prescribed '
+               'while, for, switch, return, shorthand assignment x o= e for + - * & |), that the code gen_stmt is modelled to emit (Model/C3Stmt.v) returns the prescribed '
                'value; the CFG is represented unfolded along forward edges (Model/StmtCode.v), executed with IRSem arithmetic but '
                'NOT with IRSem.run_function on numbered blocks/byte memory; model CFG vs decompiled c3_to_ir output compared '
                'structurally every run. Expression level: theorems (unbounded in values, int width 16/32/64) cover expressions over int/byte/bool: '
@@ -451,7 +451,11 @@ class SGen:
             return ('if', self.cond(1), [('ret', self.num(2))], [])
         if r < 0.66:
             return ('assign', 'f', 'bool', self.cond(2))
-        if r < 0.8:
+        if r < 0.72:
+            self.feats.add('shorthand')
+            t = self.rng.choice(['int', 'byte'])
+            return ('aop', {'int': self.rng.choice(['x', 'y']), 'byte': 'u'}[t], t, self.rng.choice(SHORTHAND), self.num(2))
+        if r < 0.82:
             self.feats.add('byte-assign')
             # byte variable: byte expression, or int expression narrowed implicitly
             return ('assign', 'u', 'byte', self.num(2, self.rng.choice(['byte', 'int'])))
@@ -463,6 +467,8 @@ def s_src(s, ind):
     k = s[0]
     if k == 'assign':
         return [p + '%s = %s;' % (s[1], e_src(s[3]))]
+    if k == 'aop':
+        return [p + '%s %s= %s;' % (s[1], s[3], e_src(s[4]))]
     if k == 'ret':
         return [p + 'return %s;' % e_src(s[1])]
     if k == 'if':
@@ -501,6 +507,9 @@ def s_run(w, env, stmts, budget):
         k = s[0]
         if k == 'assign':
             env[s[1]] = coerce(w, s[2], typeof(s[3]), ev(w, env, s[3]))
+        elif k == 'aop':
+            rhs = coerce(w, s[2], typeof(s[4]), ev(w, env, s[4]))
+            env[s[1]] = arith(bits_of(w, s[2]), s[2] != 'byte', s[3], env[s[1]], rhs)
         elif k == 'ret':
             raise _Return(coerce(w, 'int', typeof(s[1]), ev(w, env, s[1])))
         elif k == 'if':
@@ -603,7 +612,14 @@ def tgen_block(rng, depth, n=None):
     return [tgen_stmt(rng, depth) for _ in range(n or rng.choice([1, 1, 2]))]
 
 
+SHORTHAND = ['+', '-', '*', '&', '|']
+
+
 def tgen_assign(rng):
+    r = rng.random()
+    if r < 0.25:
+        t = rng.choice(['int', 'byte'])
+        return ('aop', rng.choice(TVARS[t]), t, rng.choice(SHORTHAND), gen_num(rng, 1, rng.choice(['int', 'byte']) if t == 'byte' else None, param_vars))
     r = rng.random()
     if r < 0.1:
         return ('assign', 4, 'bool', ('bool', rng.random() < 0.5))
@@ -649,6 +665,8 @@ def t_src(s, ind):
     k = s[0]
     if k == 'assign':
         return [p + 'p%d = %s;' % (s[1], e_src(s[3]))]
+    if k == 'aop':
+        return [p + 'p%d %s= %s;' % (s[1], s[3], e_src(s[4]))]
     if k == 'ret':
         return [p + 'return %s;' % e_src(s[1])]
     if k == 'if':
@@ -678,6 +696,8 @@ def t_coq(s):
     k = s[0]
     if k == 'assign':
         return '(SAssign %d %s %s)' % (s[1], TY_COQ[s[2]], e_coq(s[3]))
+    if k == 'aop':
+        return '(SAssignOp %d %s %s %s)' % (s[1], TY_COQ[s[2]], INV_BIN[s[3]], e_coq(s[4]))
     if k == 'ret':
         return '(SRet %s)' % e_coq(s[1])
     if k == 'if':
@@ -956,7 +976,8 @@ MANIFEST = {
             'executed (c37_short_circuit_and/or); implicit byte->int widening is inserted and keeps the value '
             '(c37_coercion_exact); int->byte narrowing is also inserted implicitly by do_coerce and truncates modulo 256 '
             '(c37_coercion_narrowing_is_implicit); bool converts to nothing (c37_coercion_bool_rejected). STATEMENTS over int/byte/bool '
-            'variables (assignment with the implicit conversion, compound, if/else, while, for, switch, return): whenever the '
+            'variables (assignment with the implicit conversion, shorthand assignment += -= *= &= |=, compound, if/else, while, for, '
+            'switch, return; C3 has no break/continue statement; calls are NOT in the theorem): whenever the '
             'relational big-step semantics C3StmtSpec ends in return v, the code the gen_stmt model emits returns v '
             '(c37_stmt_exact, c37_body_exact), and the CJump chain of a switch reaches exactly the code of the first matching '
             'case label, else default (c37_switch_dispatch). LIMIT: the emitted CFG is modelled unfolded along its forward edges '
